@@ -92,7 +92,12 @@ def compute_closure(fns, roots):
             continue
         seen.add(id(f))
         out.append(f)
-        for name in set(ident.findall(f['text'])):
+        names = set(ident.findall(f['text']))
+        # lemmas pulled in without a call syntax: `broadcast use a, b::c;`
+        for grp in re.findall(r'\bbroadcast\s+use\s+([^;]+);', f['text']):
+            for nm in grp.split(','):
+                names.add(nm.strip().split('::')[-1])
+        for name in names:
             if name in by_bare:
                 for g in by_bare[name]:
                     if id(g) not in seen and g is not f:
